@@ -7,6 +7,7 @@ import (
 	"errors"
 	"fmt"
 	"io"
+	"strings"
 )
 
 // UnmarshalJSON expects an io Reader whose data will be parsed using a streaming
@@ -139,6 +140,15 @@ func handleAttribute(dec *json.Decoder) (*Attribute, error) {
 	return a, nil
 }
 
+// hasNonZeroDigit tells whether the mantissa of a number literal has a digit
+// other than zero, i.e. whether the number is not zero however small it is.
+func hasNonZeroDigit(lit string) bool {
+	if i := strings.IndexAny(lit, "eE"); i >= 0 {
+		lit = lit[:i]
+	}
+	return strings.ContainsAny(lit, "123456789")
+}
+
 // tokenToValue does all the heavy lifting of ensuring we have a
 // usable value.
 func tokenToValue(t json.Token) (Canonicalable, error) {
@@ -149,11 +159,12 @@ func tokenToValue(t json.Token) (Canonicalable, error) {
 		if i, err := n.Int64(); err == nil {
 			return Integer(i), nil
 		}
-		if f, err := n.Float64(); err == nil {
+		if f, err := n.Float64(); err == nil && (f != 0 || !hasNonZeroDigit(n.String())) {
 			return Float(f), nil
 		}
-		// neither a 64 bit integer nor a 64 bit float can hold this number,
-		// and turning it into something else (it used to become null) would
+		// neither a 64 bit integer nor a 64 bit float can hold this number
+		// (too large, or too small to be told from zero), and turning it
+		// into something else (it used to become null, or zero) would
 		// give different documents the same canonical form.
 		return nil, fmt.Errorf("number out of range: %s", n.String())
 	}
